@@ -123,6 +123,54 @@ def decode_tree(fdp):
     return {"ops": ops}
 
 
+def decode_nesterov(fdp):
+    """Two convex shapes for the Nesterov GJK variants: small hulls on a
+    quarter lattice (generic module) or box / cylinder / capsule / sphere /
+    ellipsoid pairs (primitives module), separated or overlapping."""
+    def hull():
+        k = fdp.ConsumeIntInRange(4, 8)
+        sc = [0.25, 1.0, 4.0][fdp.ConsumeIntInRange(0, 2)]
+        V = [[sc * fdp.ConsumeIntInRange(-4, 4) * 0.25 + (fdp.ConsumeFloatInRange(-0.1, 0.1) if fdp.ConsumeBool() else 0.0)
+              for _ in range(3)] for _ in range(k)]
+        from .gen.colliders import hull_vertices_only, _full_rank
+        V = np.array(V)
+        if not _full_rank(V):
+            V = np.array([[1, 1, 1], [1, -1, -1], [-1, 1, -1], [-1, -1, 1.0]]) * sc
+        return {"kind": "hull", "vertices": hull_vertices_only(V.tolist()), "vcls": "fuzz"}
+
+    def prim(kind):
+        sz = lambda: [0.25, 0.5, 1.0, 2.0][fdp.ConsumeIntInRange(0, 3)] if fdp.ConsumeBool() else fdp.ConsumeFloatInRange(0.1, 4.0)  # noqa: E731
+        sp = {"kind": kind, "R": np.asarray(_rotation(fdp)).tolist(), "p": [0.0, 0.0, 0.0]}
+        if kind == "box":
+            sp["size"] = [sz(), sz(), sz()]
+        elif kind == "cylinder":
+            sp["radius"], sp["length"] = sz(), sz()
+        elif kind == "capsule":
+            sp["radius"], sp["height"] = sz(), sz()
+        elif kind == "sphere":
+            sp["R"] = np.eye(3).tolist()
+            sp["radius"] = sz()
+        else:
+            sp["radii"] = [sz(), sz(), sz()]
+        return sp
+    mode = fdp.ConsumeIntInRange(0, 3)
+    kinds = ["box", "cylinder", "capsule", "sphere", "ellipsoid"]
+    if mode <= 1:
+        A, B = hull(), hull()
+    else:
+        A, B = prim(kinds[fdp.ConsumeIntInRange(0, 4)]), prim(kinds[fdp.ConsumeIntInRange(0, 4)])
+    off = [_coord(fdp, -6, 6) for _ in range(3)]
+    from .gen.colliders import translate
+    B = translate(B, off)
+    return {"A": A, "B": B, "family": "free", "wit": {}, "labels": ["free", "fuzz"]}
+
+
+def _check_c09(case):
+    from .props import c09
+    os.environ["VP_C09_ONLY"] = "nesterov,nesterov-raw,nesterov-acc,nesterov-prim,nesterov-prim-raw,nesterov-prim-acc"
+    return "C09", c09, c09.check_case(case, {"name": "fuzz"})
+
+
 def _check_c18(case):
     from .props import c18
     return "C18", c18, c18.check_points(case["points"])
@@ -146,6 +194,7 @@ TARGETS = {
     "line-box-c10": (decode_line_box, _check_prim(0)),
     "line-box-c11": (decode_line_box, _check_prim(1)),
     "aabbtree": (decode_tree, _check_c05),
+    "nesterov": (decode_nesterov, _check_c09),
 }
 
 
